@@ -103,7 +103,7 @@ A == Var("a")  B == Var("b")
 \* literal beyond 32 bits, too large for Rat: Skip); `floor` is a USER function of that module that merely has the
 \* name of a mathematical function (floor(a) = a + 1).
 FT == [hlp |-> FnDef(<<"a", "b">>, <<Ret(Bin("sub", A, B))>>), pi |-> ConstDef(Skip),
-       K |-> ConstDef(RFromInt(3)), BIG |-> ConstDef(Skip),
+       K |-> ConstDef(RFromInt(3)), BIG |-> ConstDef(Skip), NEG |-> ConstDef(Skip),   \* NEG = -5 * 10^9
        floor |-> FnDef(<<"a">>, <<Ret(Bin("add", A, Num(1)))>>)]
 AllParams == <<"a", "b", "c">>
 
@@ -365,6 +365,8 @@ Lib == {FnRec(<<"a", "b">>, Bin("sub", A, Bin("mul", Num(2), B))),
 \*   not exportable).
 Lib2 == {FnRec(<<"a", "b">>, Bin("mul", Const("K"), Bin("mul", A, B))),
          FnRec(<<"a", "b">>, Bin("sub", Bin("mul", Const("BIG"), A), B)),
+         \* big integers of EVERY sign: a negative module constant (inlined as a negative literal) and the negated positive one
+         FnRec(<<"a", "b">>, Bin("sub", Bin("mul", Const("NEG"), A), Bin("mul", Neg(Const("BIG")), B))),
          FnRec(<<"a", "b">>, Bin("mul", Fn("log", <<Bin("add", A, Num(1)), Num(2)>>), B)),
          FnRec(<<"a", "b">>, Bin("mul", Call("floor", <<A>>), B)),
          FnRec(<<"a", "b">>, Bin("add", Fn("remainder", <<Bin("add", A, Num(1)), Bin("add", B, Num(2))>>), A))}
@@ -438,9 +440,10 @@ NameMap(s) ==
       [] s = "escape2"  -> [x |-> "x.1"]
       [] s = "keyword"  -> [q |-> "lambda", d1 |-> "in"]
       [] s = "helper"   -> [q |-> "K", p |-> "xref", d1 |-> "init_pa", d2 |-> "r1_stoich_x", r2 |-> "init_xa", pb |-> "xref_r2"]
+      [] s = "modnames" -> [d1 |-> "Model", d2 |-> "Model_", q |-> "create_model"]
       [] s = "amount"   -> [q |-> "x_amount"]
       [] s = "compart"  -> [q |-> "compartment"]
-AllSchemes == {"plain", "sympy", "formal", "helper", "escape", "escape1", "escape2", "keyword", "amount", "compart"}
+AllSchemes == {"plain", "sympy", "formal", "helper", "modnames", "escape", "escape1", "escape2", "keyword", "amount", "compart"}
 
 Nm(n) == IF n \in DOMAIN NameMap(scheme) THEN NameMap(scheme)[n] ELSE n
 RenSeq(s) == [j \in DOMAIN s |-> Nm(s[j])]
@@ -486,7 +489,7 @@ MustExport(e) ==
     /\ e.k = "fn" => e.name \in CoreFns
     /\ LET ks == Kids(e) IN \A j \in DOMAIN ks : MustExport(ks[j])
 \* the specification cannot compute the value: opaque function or math.pi
-Opaque(e) == e.k = "fn" \/ (e.k = "const" /\ e.name \in {"pi", "BIG"}) \/ LET ks == Kids(e) IN \E j \in DOMAIN ks : Opaque(ks[j])
+Opaque(e) == e.k = "fn" \/ (e.k = "const" /\ e.name \in {"pi", "BIG", "NEG"}) \/ LET ks == Kids(e) IN \E j \in DOMAIN ks : Opaque(ks[j])
 
 RECURSIVE SubExprs(_)
 SubExprs(e) == {e} \cup LET ks == Kids(e) IN UNION {SubExprs(ks[j]) : j \in DOMAIN ks}
@@ -508,7 +511,7 @@ HasTie(e, env) ==
     \/ LET ks == Kids(e) IN \E j \in DOMAIN ks : HasTie(ks[j], env)
 \* exact in binary floating point: division by the literals 1, 2, 1/2 and powers with a natural literal exponent
 InexactNode(e) ==
-    \/ e.k = "fn" \/ (e.k = "const" /\ e.name \in {"pi", "BIG"})
+    \/ e.k = "fn" \/ (e.k = "const" /\ e.name \in {"pi", "BIG", "NEG"})
     \/ e.k = "div" /\ ~(e.b.k = "num" /\ e.b.v \in {One, RFromInt(2), R(1, 2)})
     \/ e.k = "pow" /\ ~(e.b.k = "num" /\ IsInt(e.b.v) /\ e.b.v.n >= 0)
 Inexact(cc) == \E f \in FnsOf(cc) : \E s \in SubExprs(f.e) : InexactNode(s)
